@@ -1,9 +1,9 @@
 import CalicoVerif.Util.Proto
 import CalicoVerif.Model.C17
 /-! Driver for C17.
-  `new <removeNonCalico01>` | `iface <name> <idx> <up|down|gone>` | `kroute <cidr> <ifindex> <gw|-> <proto> <kind>` | `kdel <cidr>`
+  `new <removeNonCalico01>` | `iface <name> <idx> <up|down|gone>` (down/gone also drops the kernel's routes on it) | `kroute <cidr> <ifindex> <gw|-> <proto> <kind>` | `kdel <cidr>`
   `set <cls> <iface> <cidr~gw~kind,...|->` | `upd <cls> <iface> <cidr> <gw|-> <kind>` | `rem <cls> <iface> <cidr>` | `resync`
-  `apply <letters>`   letters ⊆ {l (LinkList fails), r (RouteList fails), p (RouteReplace fails once), d (RouteDel fails once)}, `-` = none
+  `apply <letters>`   letters ⊆ {l (LinkList fails), r (RouteList fails), n (LinkByName fails), p (RouteReplace fails once), d (RouteDel fails once)}, `-` = none
 -/
 open CalicoVerif CalicoVerif.C17 CalicoVerif.Proto
 
@@ -15,47 +15,50 @@ def showK (K : Kernel) : String :=
   "K{" ++ ";".intercalate ((sortMap K).map (fun p =>
     s!"{p.1}={p.2.ifindex}/{if p.2.gw == "" then "-" else p.2.gw}/{p.2.proto}/{p.2.kind}")) ++ "}"
 
+def showR (m : Map KRoute) : String :=
+  "{" ++ ";".intercalate ((sortMap m).map (fun p =>
+    s!"{p.1}={p.2.ifindex}/{if p.2.gw == "" then "-" else p.2.gw}/{p.2.proto}/{p.2.kind}")) ++ "}"
+
+def showAll (w : W) : String :=
+  let des : Map KRoute := w.t.desiredKeys.filterMap (fun c => (w.t.desired c).map (fun r => (c, r)))
+  showK w.K ++ " D" ++ showR des ++ " P" ++ showR w.t.dp ++ " R{" ++ ",".intercalate (sortS w.t.rescan) ++ "} f" ++
+    (if w.t.fullResync then "1" else "0")
+
 def mkPolicy (rm : Bool) : Policy :=
   { workloadPrefixes := ["cali"], removeNonCalico := rm, special := ["vxlan.calico", "bpfin.cali"],
     allProtos := [80], exclusiveProtos := [80] }
 
-def step (w : W) (line : String) : W × String :=
+def parseOp (line : String) : Option Op :=
   match words line with
-  | ["new", rm] => ({ t := { pol := mkPolicy (rm == "1"), defProto := 80 } }, "ok")
   | ["iface", n, i, st] =>
-    match i.toNat? with
-    | some i =>
-      let v : Option Iface := if st == "gone" then none else some ⟨i, st == "up"⟩
-      let kif := match v with | some x => w.kif.set n x | none => w.kif.erase n
-      ({ w with kif := kif, t := { (w.t.setIface n v) with fullResync := true } }, "ok")
-    | none => (w, "bad-op")
+    i.toNat?.map (fun i => Op.iface n i (if st == "gone" then none else some (st == "up")))
   | ["kroute", c, i, g, p, k] =>
     match i.toNat?, p.toNat? with
-    | some i, some p => ({ w with K := w.K.set c ⟨i, gwOf g, p, k⟩ }, "ok")
-    | _, _ => (w, "bad-op")
-  | ["kdel", c] => ({ w with K := w.K.erase c }, "ok")
+    | some i, some p => some (Op.kroute c ⟨i, gwOf g, p, k⟩)
+    | _, _ => none
+  | ["kdel", c] => some (Op.kdel c)
   | ["set", cls, ifc, ws] =>
-    match cls.toNat? with
-    | some cls =>
-      let ws := (splitList "," ws).filterMap (fun s => match s.splitOn "~" with
+    cls.toNat?.map (fun cls =>
+      Op.set cls ifc ((splitList "," ws).filterMap (fun s => match s.splitOn "~" with
         | [c, g, k] => some (⟨cls, ifc, c, gwOf g, k⟩ : Want)
-        | _ => none)
-      ({ w with t := w.t.setRoutes cls ifc ws }, "ok")
-    | none => (w, "bad-op")
-  | ["upd", cls, ifc, c, g, k] =>
-    match cls.toNat? with
-    | some cls => ({ w with t := w.t.routeUpdate ⟨cls, ifc, c, gwOf g, k⟩ }, "ok")
-    | none => (w, "bad-op")
-  | ["rem", cls, ifc, c] =>
-    match cls.toNat? with
-    | some cls => ({ w with t := w.t.routeRemove cls ifc c }, "ok")
-    | none => (w, "bad-op")
-  | ["resync"] => ({ w with t := { w.t with fullResync := true } }, "ok")
+        | _ => none)))
+  | ["upd", cls, ifc, c, g, k] => cls.toNat?.map (fun cls => Op.upd ⟨cls, ifc, c, gwOf g, k⟩)
+  | ["rem", cls, ifc, c] => cls.toNat?.map (fun cls => Op.rem cls ifc c)
+  | ["resync"] => some Op.resync
   | ["apply", fs] =>
     let has := fun (c : Char) => fs.toList.contains c
-    let w := { w with f := { linkList := has 'l', routeList := has 'r', replace := has 'p', del := has 'd' } }
-    let (w, e) := w.apply
-    ({ w with f := {} }, (if e then "err " else "ok ") ++ showK w.K)
-  | _ => (w, "bad-op")
+    some (Op.apply { linkList := has 'l', routeList := has 'r', replace := has 'p', del := has 'd', linkByName := has 'n' })
+  | _ => none
+
+def step (w : W) (line : String) : W × String :=
+  match words line with
+  | ["new", rm] => ({ t := { pol := mkPolicy (rm == "1"), defProto := 80 }, kif := [("lo", ⟨1, true⟩)] }, "ok")
+  | _ =>
+    match parseOp line with
+    | none => (w, "bad-op")
+    | some op =>
+      match w.stepOp op with
+      | (w, none) => (w, "ok")
+      | (w, some e) => (w, (if e then "err " else "ok ") ++ showAll w)
 
 def main : IO Unit := run step { t := { pol := mkPolicy true, defProto := 80 } }
